@@ -64,7 +64,7 @@ int main(int argc, char **argv) {
     { pl::BankSpec m; pl::InsSpec s; s.id = 31; m.ins[127] = s; g_base = pl::make_wopn({m}); }
     std::vector<en::Family> fams;
     static int STEP; STEP = thorough ? 1 : 16;
-    { en::Family F; F.name = "key_bend_grid"; F.count = 2 * 6 * 5 * 128 * 2; F.chunk = 4; F.budget_s = 120; F.describe = std::string("chip family {OPN2, OPNA} x bend range {0,1,2,12,24 semitones, MSB 127/LSB 127} x note offset {-24,-12,0,+12,+24} x key 0..127 x channel {melodic, percussion with drum key = key}; on each: ") + (thorough ? "all 16384 bend values" : "every 16th bend value plus 0, 8191, 8192, 8193, 16383") + " in ascending order";
+    { en::Family F; F.name = "key_bend_grid"; F.count = 2 * 6 * 5 * 128 * 2; F.chunk = 4; F.budget_s = 120; F.describe = std::string("chip family {OPN2, OPNA} x bend range {0,1,2,12,24 semitones, MSB 127/LSB 127} x note offset {-24,-12,0,+12,+24} x key 0..127 x channel {melodic, percussion with drum key = key}; on each: ") + (thorough ? "all 16384 bend values upwards, then back down in steps of 8 with the key held" : "every 16th bend value plus 0, 8191, 8192, 8193, 16383, then back down in steps of 128") + " in ascending order";
       F.run = [](uint64_t i, en::CaseOut &o) { Sweep s; s.family = (int)(i % 2); s.range = (int)((i / 2) % 6); s.offset = (int)((i / 12) % 5); int key = (int)((i / 60) % 128); s.chan = (i / 7680) ? 9 : 0;
         pl::Instance I; if(!setup(I, s, 0)) { o.fail("C10/harness", "setup failed"); return; }
         OPN2_MIDIPlayer *d = I.dev; uint8_t ch = (uint8_t)s.chan;
@@ -78,8 +78,12 @@ int main(int argc, char **argv) {
         { double p = key + OFFSETS[s.offset] + (0 - 8192) / 8192.0 * range; snprintf(w, sizeof w, "%s key %d offset %d range %.3f key-on at bend 0", s.family ? "OPNA" : "OPN2", key, OFFSETS[s.offset], range); check_pitch(I, s.family, p, w, o, lastf, false); if(o.bad) return; }
         for(int bend = 0; bend < 16384 && !o.bad; bend += STEP) { one(bend); if(STEP > 1 && bend == 8192 - STEP) { one(8191); if(!o.bad) one(8192); if(!o.bad) one(8193); bend = 8192; } }
         if(!o.bad) one(16383);
+        // and back down with the key still held: a re-pitch that returns from above the native range must restore everything the excursion changed (multipliers)
+        { int dstep = STEP * 8; double prevf = 1e18; for(int bend = 16383 - dstep; bend >= 0 && !o.bad; bend -= dstep) { opn2_rt_pitchBend(d, ch, (OPN2_UInt16)bend); double p = key + OFFSETS[s.offset] + (bend - 8192) / 8192.0 * range;
+              snprintf(w, sizeof w, "%s key %d offset %d range %.3f bend %d (sweeping down) channel %d", s.family ? "OPNA" : "OPN2", key, OFFSETS[s.offset], range, bend, s.chan); double lf = -1; check_pitch(I, s.family, p, w, o, lf, false);
+              if(!o.bad && lf >= 0) { if(lf > prevf + 1e-9) { char b2[300]; snprintf(b2, sizeof b2, "%s: frequency rose from %.3f to %.3f Hz while p fell", w, prevf, lf); o.fail("C10/not-monotone", b2); } prevf = lf; } } }
         if(i % 997 == 0) o.sample = w;
-        o.units = (uint64_t)(16384 / STEP + 5);
+        o.units = (uint64_t)(16384 / STEP + 5 + 16384 / (STEP * 8));
         if(!o.bad) o.nontrivial = true; };
       fams.push_back(F); }
     { en::Family F; F.name = "drum_key"; F.count = 2 * 127 * 3; F.chunk = 16; F.budget_s = 60; F.describe = "percussion channel: drum key 1..127 fixes the pitch whatever MIDI key {35,60,100} is played, OPN2/OPNA";
